@@ -421,6 +421,13 @@ theorem heap_examples :
   ⟨⟨AliasC17.example_all_deep.1, AliasC17.example_all_deep.2.2.1, AliasC17.example_all_deep.2.2.2.1⟩,
     AliasC17.step_alias_breaks_frame⟩
 
+/-- a `version` that is no integer (str, None, float, list, dict) is rejected with TypeError before anything else
+    happens (`start_version - 1`); a bool is an int in Python (`True` = 1, `False` = 0) -/
+theorem convert_nonint_version_raises (ms : List Mapping) (kvs : Obj) (x : Json)
+    (hv : get "version" kvs = some x) (hx : versionInt x = none) :
+    convertDict (.obj kvs) ms = .error .typeErr := by
+  simp [convertDict, startVersion, hv, hx]
+
 /-! ### `Versioned` deserialization and construction -/
 
 /-- **versioned_deser_equiv**: deserializing a `Versioned` class (with or without a `_versions_mapping`
